@@ -28,6 +28,9 @@ func mkErr(msg Str, wrapped ...Value) Value {
 	return Iface{T: errNamed, V: ErrVal{Msg: msg, Wrapped: wrapped}}
 }
 
+// IgnoreOpt models a cmpopts option.
+type IgnoreOpt struct{ Fields []string }
+
 // ReflectVal models reflect.Value of an interface value.
 type ReflectVal struct{ X Value }
 
@@ -514,15 +517,31 @@ func externals() map[string]ExtFn {
 		}
 		return s.MapHoles("base", filepath.Base)
 	}
-	e["math.Round"] = func(m *Machine, a []Value) Value {
-		switch x := a[0].(type) {
-		case float64:
-			return math.Round(x)
-		case Num:
-			m.Assume("symbolic integer bounds are integral (math.Round is the identity on them)")
-			return x
+	rounding := func(name string, f func(float64) float64) {
+		e["math."+name] = func(m *Machine, a []Value) Value {
+			switch x := a[0].(type) {
+			case float64:
+				return f(x)
+			case Num:
+				if m.Integral(x.A) {
+					return x
+				}
+				r := x
+				r.Tr = append(append([]string{}, x.Tr...), strings.ToLower(name))
+				return r
+			}
+			panic(m.undecided("math.%s on %T", name, a[0]))
 		}
-		panic(m.undecided("math.Round on %T", a[0]))
+	}
+	rounding("Round", math.Round)
+	rounding("Trunc", math.Trunc)
+	rounding("Ceil", math.Ceil)
+	rounding("Floor", math.Floor)
+	e["math.Abs"] = func(m *Machine, a []Value) Value {
+		if x, ok := a[0].(float64); ok {
+			return math.Abs(x)
+		}
+		panic(m.undecided("math.Abs on %T", a[0]))
 	}
 	e["github.com/mitchellh/go-wordwrap.WrapString"] = func(m *Machine, a []Value) Value {
 		s := strArg(m, a[0])
@@ -542,6 +561,66 @@ func externals() map[string]ExtFn {
 	e["go/format.Source"] = func(m *Machine, a []Value) Value {
 		// gofmt is modelled as the identity on text that parses; whether the text parses is decided by A-SYN on the skeleton
 		return Tuple{a[0], Iface{}}
+	}
+	e["dario.cat/mergo.Merge"] = func(m *Machine, a []Value) Value {
+		di, _ := a[0].(Iface)
+		si, _ := a[1].(Iface)
+		dp, ok := di.V.(Ptr)
+		if !ok || dp.P == nil || di.T == nil {
+			panic(m.undecided("mergo.Merge destination is not a pointer"))
+		}
+		pt, ok := di.T.Underlying().(*types.Pointer)
+		if !ok {
+			panic(m.undecided("mergo.Merge destination is not a pointer type"))
+		}
+		var src Value = si.V
+		if sp, ok := si.V.(Ptr); ok {
+			if sp.P == nil {
+				return Iface{}
+			}
+			src = *sp.P
+		}
+		skip := func(t types.Type) bool {
+			n, ok := t.(*types.Named)
+			return ok && n.Obj().Name() == "TypeList" // the registered transformer does nothing for this type
+		}
+		m.Assume("mergo.Merge is modelled: empty destination fields take the source, slices are appended, maps merge key-wise (shared keys deep-merge), nil pointers are shared, TypeList is left to its (no-op) transformer")
+		m.mergoMerge(dp.P, src, pt.Elem(), skip, 0)
+		return Iface{}
+	}
+	e["dario.cat/mergo.WithAppendSlice"] = func(m *Machine, a []Value) Value { return nil }
+	e["dario.cat/mergo.WithTransformers"] = func(m *Machine, a []Value) Value { return (*Closure)(nil) }
+	e["github.com/google/go-cmp/cmp.Equal"] = func(m *Machine, a []Value) Value {
+		xi, _ := a[0].(Iface)
+		yi, _ := a[1].(Iface)
+		if xi.T == nil || yi.T == nil {
+			return xi.T == nil && yi.T == nil
+		}
+		if !types.Identical(xi.T, yi.T) {
+			return false
+		}
+		ign := map[string]bool{}
+		for _, o := range SliceValues(a[2]) {
+			if io, ok := o.(IgnoreOpt); ok {
+				for _, f := range io.Fields {
+					ign[f] = true
+				}
+			}
+		}
+		m.Assume("cmp.Equal with cmpopts.IgnoreUnexported/IgnoreFields is modelled as typed structural equality over exported, non-ignored fields")
+		return m.typedEqual(xi.V, yi.V, xi.T, ign, 0)
+	}
+	e["github.com/google/go-cmp/cmp/cmpopts.IgnoreUnexported"] = func(m *Machine, a []Value) Value { return IgnoreOpt{} }
+	e["github.com/google/go-cmp/cmp/cmpopts.IgnoreFields"] = func(m *Machine, a []Value) Value {
+		var fs []string
+		for _, n := range SliceValues(a[1]) {
+			if s, ok := n.(Str); ok {
+				if c, ok := s.Concrete(); ok {
+					fs = append(fs, c)
+				}
+			}
+		}
+		return IgnoreOpt{Fields: fs}
 	}
 	e["reflect.ValueOf"] = func(m *Machine, a []Value) Value { return ReflectVal{a[0]} }
 	e["(reflect.Value).Kind"] = func(m *Machine, a []Value) Value {
@@ -578,7 +657,6 @@ func externals() map[string]ExtFn {
 	}
 	return e
 }
-
 
 // deepEqual mirrors reflect.DeepEqual on abstract values.
 func (m *Machine) deepEqual(x, y Value, seen map[[2]*Value]bool) bool {
